@@ -387,12 +387,19 @@ class Facts:
         self.renamed = renames.undo_renames(self.j, renames.load_signatures()) if use_inliner else {}
         if use_inliner:
             self.renamed.update(renames.undo_rehoming(self.j, renames.load_signatures()))
+        inline._ROOT_TYPES = {x["path"] for k_ in ("adts", "traits", "type_aliases") for x in self.j.get(k_, []) if "::" not in x.get("path", "::")}
         self.folded = sum(inline.fold_const_switches(b) for b in self.j["bodies"])
         self.inlined = inline.inline_helpers(self.j["bodies"], inline.load_known()) if use_inliner else {}
         if use_inliner:
+            n_dev = 0
             for b_ in self.j["bodies"]:
                 if b_.get("inlined"):
-                    inline.devirtualise(b_)
+                    n_dev += inline.devirtualise(b_)
+            if n_dev:
+                # a function pointer that turned out to be a private helper (`infix(lbp, subexpr)`): splice that one too
+                again = inline.inline_helpers(self.j["bodies"], inline.load_known())
+                for h, callers in again.items():
+                    self.inlined[h] = sorted(set(self.inlined.get(h, [])) | set(callers))
         from . import normalize
         import os as _os
         self.combinators = normalize.normalise_combinators(self.j["bodies"], self.j.get("adts"), cli=(self.j.get("crate") == "jp")) if use_inliner and not _os.environ.get("VERIF_NO_NORMALISE") else 0
